@@ -8,5 +8,7 @@ import DSymVerif.Props.C12
 #print axioms DSymVerif.C12.derived_table_rejects_only_on_conflict
 #print axioms DSymVerif.C12.search_states_inverse_consistent
 #print axioms DSymVerif.C12.extract_complete
+#print axioms DSymVerif.C12.extract_valid
+#print axioms DSymVerif.C12.derived_table_relators_close
 #print axioms DSymVerif.C12.rebase_min_invariant
 #print axioms DSymVerif.C12.renumber_iso
